@@ -16,6 +16,7 @@ const vsCfgTemplate = `CONSTANTS
   FixTomb = %s
   FixCache = %s
   FixEmptyScan = %s
+  GhostCache = %s
   WithHist = %s
 INIT Init
 NEXT Next
@@ -23,6 +24,10 @@ CHECK_DEADLOCK FALSE
 `
 
 func vsCfg(maxH, views int, tags string, fixParent, fixTomb, fixCache, fixScan, hist bool, tail string) string {
+	return vsCfgG(maxH, views, tags, fixParent, fixTomb, fixCache, fixScan, false, hist, tail)
+}
+
+func vsCfgG(maxH, views int, tags string, fixParent, fixTomb, fixCache, fixScan, ghost, hist bool, tail string) string {
 	b := func(x bool) string {
 		if x {
 			return "TRUE"
@@ -33,7 +38,7 @@ func vsCfg(maxH, views int, tags string, fixParent, fixTomb, fixCache, fixScan, 
 	for _, t := range strings.Split(tags, "") {
 		ts = append(ts, `"`+t+`"`)
 	}
-	return fmt.Sprintf(vsCfgTemplate, maxH, views, strings.Join(ts, ","), b(fixParent), b(fixTomb), b(fixCache), b(fixScan), b(hist)) + tail
+	return fmt.Sprintf(vsCfgTemplate, maxH, views, strings.Join(ts, ","), b(fixParent), b(fixTomb), b(fixCache), b(fixScan), b(ghost), b(hist)) + tail
 }
 
 const vsInvariants = "INVARIANTS ViewAsOf FreshViewRight DiskIsFrontier PatchesMatch NoStaleAccept\nPROPERTIES ParentRule\n"
@@ -182,6 +187,41 @@ func vsReplayEdgeCover(run *core.Run, prop string, crash bool) {
 		}
 	})
 	walks = wst.Behaviours
+	// ghost pass: the state graph that remembers which views were cached before a rollback; every transition that requests
+	// such a view again, plain and tall (both cache levels)
+	gtags := "abc"
+	if run.Thorough() {
+		gtags = "abcde"
+	}
+	ghostCfg := vsCfgG(2, 1, gtags, true, true, true, true, true, true, "VIEW GenView\nACTION_CONSTRAINT EmitGhostEdge\n")
+	_, gst := vsGenerateAndReplayCfg(run, ghostCfg, nil, func(b *vsBehaviour, n int64, scratch string) {
+		conc := vsConcs[int((n+run.Seed)%int64(len(vsConcs)))]
+		for _, tall := range []int{0, 365} {
+			skip := false
+			for _, s := range b.Steps {
+				if s.A == "Restart" {
+					skip = true
+				}
+			}
+			if skip && tall > 0 {
+				continue
+			}
+			out, err := vsReplayT("ldb", tall, conc, b, scratch)
+			if err != nil {
+				core.Fatal("ghost replay infrastructure: %v", err)
+			}
+			kind := "ldb-reopened-after-rollback"
+			if tall > 0 {
+				kind = "ldb-tall-reopened-after-rollback"
+			}
+			run.Count("replayed_behaviours_"+kind, 1)
+			vsReportMismatches(run, prop, kind, conc, b, out.Mismatches)
+		}
+	})
+	if gst.Behaviours == 0 {
+		core.Fatal("vacuity: no transition re-requests a view cached before a rollback")
+	}
+	run.Traces += gst.Behaviours
 	run.Traces += walks
 	run.Traces += st.Behaviours
 	run.Set("edge_cover", fmt.Sprintf("VStore Gen MaxH=2 views=1: %d abstract states, %d transitions, one behaviour replayed per transition", res.Distinct, res.Generated))
